@@ -262,7 +262,7 @@ func workerMain() {
 			}
 			ds = sb.String()
 		}
-		fmt.Fprintf(wr, "%s %d %d %s x%s x%s\n", class, code, alloc, ds, hex.EncodeToString([]byte(msg)), hex.EncodeToString([]byte(extra)))
+		fmt.Fprintf(wr, "%s %d %d %s x%s x%s %d\n", class, code, alloc, ds, hex.EncodeToString([]byte(msg)), hex.EncodeToString([]byte(extra)), baseline(f[0]))
 		wr.Flush()
 	}
 }
